@@ -214,7 +214,7 @@ func isASCII(s string) bool {
 var c16 = vh.Define(&vh.Def[c16Case]{
 	Property: "C16", Name: "component",
 	Rule: "stream ids over attribute-legal text (empty, uuid-like, entities, quotes, non-ASCII, astral, leading/trailing space, control white space sent as character references, all XML-legal text), secrets as arbitrary bytes, server reply drawn from <handshake/> (3 forms), every stream error condition (8), unexpected elements (8, incl. a handshake in the wrong namespace), malformed XML (4), truncated, closed; a real Component connects to the scripted peer; oracle: handshake text == lower-case hex SHA-1(id || secret) computed by the harness; Connect nil, state SessionEstablished and the following stanza routed iff the reply was <handshake/>; otherwise error, state not established, nothing routed; non-trivial = id or secret needs escaping / is non-ASCII, or the reply is not <handshake/>",
-	Quick: 2000, Thorough: 60000, Journal: true,
+	Quick: 2000, Thorough: 24000, Journal: true,
 	Gen: genC16, Run: runC16,
 })
 
